@@ -8,6 +8,9 @@ def repo_fix_commits():
     return []
 
 CHECKS = {
+ "C11": ("exploration", "structure-aware mutation fuzzing with panic, result-range and stall monitors (logical and thread-CPU-time)",
+   "A deterministic mutator derives about a million hostile inputs (quick) from valid seeds of the three formats, including CRC32-resealed container edits and chunk-header rewrites, and feeds them to the xz, xz-SingleStream, LZMA and LZMA2 readers; monitors: recovered panics, 0<=n<=len(p), logical stalls, and a watchdog on per-thread CPU time. The evidence lists the outcome histogram showing how deep the inputs got.",
+   "Sampled inputs under the stated dictionary bound; a fatal runtime error (not recoverable) would end the process and is reported by the driver as a violation with the goroutine dump.", "4 C11"),
  "C12": ("exploration", "runtime monitoring of the multi-stream reader against the concatenation law over generated stream lists and paddings",
    "Files are assembled from a pool of valid streams with every padding length 0..16 in every gap and at the end, leading padding and trailing non-zero bytes; xz.Reader with SingleStream off and on is compared byte for byte with the homomorphism law and the error rules of the statement; liblzma (LZMA_CONCATENATED) gives a second opinion on files expected valid.",
    "Pool and lists are samples; padding values 0..16 are enumerated per gap (full product for lists of up to 3 in the thorough tier).", "4 C12"),
